@@ -275,7 +275,8 @@ func (c *Conn) Send(pkt packet.Generic, _ bool) error {
 	// log and deliver atomically with respect to the log order
 	c.Log.AddPkt(c.Name, "send", pkt, "")
 	if !c.out.push(buf) {
-		_ = c.Close()
+		// the peer is gone; what it sent before stays readable on this side
+		c.Log.Add(Event{Actor: c.Name, Op: "send-undelivered", Type: pkt.Type().String(), Note: "peer already closed"})
 		return io.ErrClosedPipe
 	}
 	if fail {
